@@ -339,6 +339,10 @@ pub fn run(tier: Tier) -> i32 {
             A::doc(vec![A::el(X, n1).decl(n2, X).attr(X, n2, "v").child(A::el(X, n2).attr("", n1, "w"))]),
             A::doc(vec![A::el(X, n1).decl("", X).decl(n2, Y).attr(Y, n1, "v").child(A::el(Y, n2))]),
         ];
+        // names that only look special
+        if i == 0 {
+            trees.push(A::doc(vec![A::el(X, "xmlns").decl("p", X).attr(X, "xmlns", "v").attr(X, "id", " a  b ").attr(X, "space", "preserve").child(A::el("", "xml").child(A::pi("xmlns", Some("d"))))]));
+        }
         if n2.starts_with("xml") {
             // prefixes beginning with xml are reserved; keep them out of the prefix position
             trees.truncate(1);
